@@ -347,7 +347,12 @@ func quote(v rt.Value) (string, bool) {
 		if math.IsNaN(x) {
 			return "(0/0)", true
 		}
-		return strconv.FormatFloat(x, 'g', -1, 64), true
+		s := strconv.FormatFloat(x, 'g', -1, 64)
+		if !strings.ContainsAny(s, ".e") {
+			// Without this the literal would be an integer
+			s += ".0"
+		}
+		return s, true
 	case rt.BoolType:
 		return strconv.FormatBool(v.AsBool()), true
 	case rt.StringType:
